@@ -57,6 +57,61 @@ def afterExit (f : TeardownFacts) (p : CrashPoint) : Ledger :=
     observersLeft := false,
     pumpAlive := !f.exitCancelsPump }
 
+/-! ### a reset in an error state, possibly issued from INSIDE one of the connection's own tasks
+
+`RUNNING_PING_RECEIVED` in an error state makes the manager call `async_reset()` from within the spa's ping-loop task, which
+`disconnect()` cancels together with the other "SPA" tasks.  A cancellation of the running task is only *pending*: it is
+delivered at the next await that really suspends — e.g. a client event handler that yields.  Everything the teardown
+procedure has not done by then is never done.  The procedures are the generated step lists. -/
+
+inductive Origin | user | spaTask
+deriving Repr, DecidableEq
+
+structure TState where
+  selfCancelled : Bool := false   -- a cancellation of the running task is pending
+  aborted : Bool := false         -- CancelledError has unwound the procedure
+  closed : Bool := false
+  protoDropped : Bool := false
+  spaCancelled : Bool := false
+  facadeCancelled : Bool := false
+  spaUnwatched : Bool := false
+  facadeUnwatched : Bool := false
+  spaCleared : Bool := false
+  facadeCleared : Bool := false
+  idle : Bool := false
+deriving Repr, DecidableEq
+
+/-- one leaf statement; `suspends` = the client's event handler really yields to the loop; `inFacade` = the statement belongs to
+the facade's disconnect -/
+def tleaf (o : Origin) (suspends inFacade : Bool) (s : TState) (st : TStep) : TState :=
+  if s.aborted then s else
+  match st with
+  | .awaitHandler => if s.selfCancelled && suspends then { s with aborted := true } else s
+  | .awaitOther => if s.selfCancelled then { s with aborted := true } else s
+  | .cancelSpa => { s with spaCancelled := true, selfCancelled := s.selfCancelled || o == .spaTask }
+  | .cancelFacade => { s with facadeCancelled := true }
+  | .dropProtocol => { s with protoDropped := true }
+  | .closeTransport => { s with closed := true }
+  | .unwatch => if inFacade then { s with facadeUnwatched := true } else { s with spaUnwatched := true }
+  | .clearSpa => { s with spaCleared := true }
+  | .clearFacade => { s with facadeCleared := true }
+  | .setIdle => { s with idle := true }
+  | _ => s
+
+/-- async_reset with the two disconnect procedures inlined -/
+def runReset (reset spaDis facDis : List TStep) (o : Origin) (suspends : Bool) : TState :=
+  reset.foldl (fun s st => match st with
+    | .callFacadeDisconnect => facDis.foldl (tleaf o suspends true) s
+    | .callSpaDisconnect => spaDis.foldl (tleaf o suspends false) s
+    | st => tleaf o suspends false s st) {}
+
+def TState.ledger (s : TState) : Ledger :=
+  { endpointOpen := !s.closed, tasksAlive := !(s.spaCancelled && s.facadeCancelled),
+    observersLeft := !(s.spaUnwatched && s.facadeUnwatched), pumpAlive := true }
+
+/-- the reset ran to its end: nothing of the old connection is referenced and the manager is IDLE (so the pump reconnects) -/
+def TState.completed (s : TState) : Bool := !s.aborted && s.spaCleared && s.facadeCleared && s.idle && s.protoDropped
+
 inductive Kind | reset | exit
 deriving Repr, DecidableEq
 
